@@ -310,6 +310,9 @@ def check_C02(tier, seed):
         scripts.append(scen.progress_script(r, len(scripts), drops_only=([x == "x" for x in d[:half]], [x == "x" for x in d[half:]])))
     for _ in range(24 if quick else 200):
         scripts.append(scen.progress_eager(r, len(scripts)))
+    # long chains of streams under a stream-count limit of 1-3
+    for _ in range(60 if quick else 600):
+        scripts.append(scen.progress_manystreams(r, len(scripts)))
     mcs = [("Progress.tla", "MC_Progress.cfg" if quick else "MC_Progress3.cfg"),
            # key updates "requested at any moment by either side": extension spec validated on the same runs
            ("KeyUpdate.tla", "MC_KeyUpdate.cfg"),
